@@ -51,11 +51,13 @@ SampledOf(d) == CASE d.ver = 1 -> {}                      \* v1 kept no sampled 
 PrunedOf(d)  == IF d.ver = 1 THEN {} ELSE SetOfRanges(Get(d.rt, KPrn))
 
 (* ---- databases written by the old code ---- *)
-\* `accPresent`: a v2 store that never sampled has no KAcc row; one that did may hold an empty list
+\* `accPresent`: a v2 store that never sampled has no KAcc row (and no row at all if it never
+\* stored a header); one that did may hold an empty list
 MkDb(v, stored, sampled, prunedS, accPresent) ==
     CASE v = 1 -> [ver |-> 1, hr |-> RunSeq(stored), rt |-> <<>>]
       [] v = 2 -> [ver |-> 2, hr |-> <<>>,
                    rt |-> IF accPresent THEN (KHdr :> RunSeq(stored)) @@ (KAcc :> RunSeq(sampled))
+                          ELSE IF stored = {} THEN <<>>            \* a store that was never written to
                           ELSE (KHdr :> RunSeq(stored))]
       [] OTHER -> [ver |-> v, hr |-> <<>>,
                    rt |-> (KHdr :> RunSeq(stored)) @@ (KSmp :> RunSeq(sampled)) @@ (KPrn :> RunSeq(prunedS))]
